@@ -36,14 +36,23 @@ impl Manager {
         let mut cfg = Cfg::new_with_predefined_call_names(nodes, &Some(interrupt_call_names))?;
         NodeDirectionPass::run(&mut cfg)?;
         EliminateDeadCodeDirectionsPass::run(&mut cfg)?;
-        AvailableValuePass::run(&mut cfg)?;
-        EcallTerminationPass::run(&mut cfg)?;
-        FunctionMarkupPass::run(&mut cfg)?;
-
         // Cutting the edges after an exit ecall changes the values that reach
         // the code below it, which can turn a further ecall into a known exit
         // (and leaves stale values where an edge was cut). Repeat until no
-        // edge is removed, so that the value facts describe the final graph.
+        // edge is removed. This has to happen before functions are marked:
+        // a function's instructions are the ones its entry reaches, and an
+        // edge cut afterwards would leave instructions in the function that
+        // it no longer reaches.
+        loop {
+            AvailableValuePass::run(&mut cfg)?;
+            if !EcallTerminationPass::terminate(&mut cfg) {
+                break;
+            }
+        }
+        FunctionMarkupPass::run(&mut cfg)?;
+
+        // Marking functions rewrites returns; bring the value facts up to
+        // date with the final graph.
         loop {
             AvailableValuePass::run(&mut cfg)?;
             if !EcallTerminationPass::terminate(&mut cfg) {
